@@ -11,6 +11,8 @@ import SfntV.Model.Caret
 import SfntV.Proofs.MetricsDerived
 import SfntV.Proofs.MetricsOs2
 import SfntV.Proofs.MetricsWriter
+import SfntV.Proofs.MetricsCaret
+import SfntV.Proofs.MetricsQueries
 
 namespace SfntV.Props.C12
 open SfntV SfntV.Metrics
@@ -92,6 +94,23 @@ theorem C12_hhea_derived_needs_lsb_eq_xMin :
       (hheaDerived hb).2.2.1 = 100 ∧ Spec.minRightSideBearingG [⟨200, 10, ⟨0, 0, 100, 100⟩⟩] = 90 ∧
       (hheaDerived hb).2.2.2.1 = 100 ∧ Spec.xMaxExtentG [⟨200, 10, ⟨0, 0, 100, 100⟩⟩] = 110 :=
   ⟨_, _, rfl, by decide, by decide, by decide, by decide⟩
+
+/-- **The shape the whole-font property (C01) cites.**  `makeHmtxModel ws es asc desc gap rise run`
+is `(*Font).makeHmtx`: `hmtx.Info{Widths: ws, GlyphExtents: es, Ascent, Descent, LineGap,
+CaretAngle}` encoded (no explicit bearings, caret offset 0), `(rise, run)` being whatever
+`fromAngle(CaretAngle)` returned.  For EVERY width vector (one `funit.Int16` per glyph, 1..65535
+glyphs), every glyph-extent list of the same length and every int16 caret pair, the two tables are
+produced (no panic) and `hmtx.Decode` gives back exactly the widths and the ascent / descent /
+line-gap triple (and bearings = xMin, caret offset 0, the caret pair) — independently of the caret
+fields and of the derived hhea fields. -/
+theorem C12_hmtx_widths_roundtrip (ws : List Int) (es : List Rect) (asc desc gap rise run : Int)
+    (hne : ws ≠ []) (hn : ws.length < 65536) (hlen : es.length = ws.length)
+    (hw : ∀ w ∈ ws, I16 w) (he : ∀ e ∈ es, I16 e.llx)
+    (ha : I16 asc) (hd : I16 desc) (hg : I16 gap) (hr : I16 rise) (hu : I16 run) :
+    ∃ hhea hmtx d, makeHmtxModel ws es asc desc gap rise run = .ok (hhea, some hmtx) ∧
+      decode hhea (some hmtx) = .ok d ∧ d.widths = ws ∧ d.ascent = asc ∧ d.descent = desc ∧
+      d.lineGap = gap ∧ d.lsb = es.map (·.llx) ∧ d.caretOffset = 0 ∧ d.rise = rise ∧ d.run = run :=
+  makeHmtx_roundtrip ws es asc desc gap rise run hne hn hlen hw he ha hd hg hr hu
 
 /-! ## (b) head -/
 
@@ -195,12 +214,12 @@ theorem C12_charrange_def (ks : List Int) (hne : ks ≠ []) (hr : ∀ k ∈ ks, 
   have hmin : 0 ≤ Spec.minList ks := by
     rw [← runMin_true]
     rcases runMin_mem ks true 0 with h | h
-    · rw [h]; exact Int.le_refl 0
+    · omega
     · exact (hr _ h).1
   have hmax : 0 ≤ Spec.maxList ks := by
     rw [← runMax_true]
     rcases runMax_mem ks true 0 with h | h
-    · rw [h]; exact Int.le_refl 0
+    · omega
     · exact (hr _ h).1
   rw [codeRange4_eq ks hne hr, codeRange12_eq, runMin_true, runMax_true]
   exact ⟨⟨charIndexModel_eq _ hmin, charIndexModel_eq _ hmax⟩, charIndexModel_eq _ hmin, charIndexModel_eq _ hmax⟩
@@ -217,21 +236,77 @@ theorem C12_winmetrics_def (es : List Rect) (hwf : ∀ e ∈ es, e.isZero = fals
     winMetricsModel (fontBBoxModel es) = ((Spec.fontBBox es).ury, -(Spec.fontBBox es).lly) := by
   rw [fontbbox_union es hwf]; exact winMetrics_eq _ h1 h2
 
+/-! ## the font's own metric queries (exact rationals) -/
+
+/-- Widths in PDF units: for a glyf font `GlyphWidthPDF = 1000 · WidthsPDF` and
+`WidthsPDF · unitsPerEm = design width`; for a CFF font whose matrix has no shear product
+(`fm[1]·fm[2] = 0`, in particular every `[s 0 0 s 0 0]`) `GlyphWidthPDF = 1000 · WidthsPDF`. -/
+theorem C12_widthpdf_def (w : Int) (upem : Nat) (hu : 0 < upem) (wq : Rat) (fm : Mat)
+    (h : fm.b * fm.c = 0) :
+    (glyphWidthPDFglyf w upem = 1000 * widthPDFglyf w upem ∧ widthPDFglyf w upem * upem = w) ∧
+    glyphWidthPDFcff wq fm = 1000 * widthPDFcff wq fm :=
+  ⟨widthPDF_glyf w upem hu, widthPDF_cff wq fm h⟩
+
+/-- `FontBBoxPDF` is the image of `FontBBox`: for a uniform positive font matrix `[s 0 0 s 0 0]`
+and glyph boxes that are boxes (`none` = nil glyph), the rectangle `FontBBoxPDF` accumulates from the
+per-glyph `GlyphBBoxPDF` values is `1000·s` times the union of the design-unit glyph boxes. -/
+theorem C12_fontbboxpdf_image (s : Rat) (hs : 0 < s) (gs : List (Option Rect))
+    (hwf : ∀ e, some e ∈ gs → e.WF) :
+    fontBBoxPDF (Mat.scale s) (gs.map fun g => g.map corners) =
+      imageRect (s * 1000) (Spec.fontBBox (gs.map fun g => g.getD ⟨0, 0, 0, 0⟩)) := by
+  rw [fontBBoxPDF_image s hs gs hwf, fontbbox_union]
+  intro e he _
+  obtain ⟨g, hg, rfl⟩ := List.mem_map.1 he
+  cases g with
+  | none => exact ⟨Int.le_refl 0, Int.le_refl 0⟩
+  | some e' => exact hwf e' hg
+
+/-- The rational model of the writer's handling of CFF widths (`int(w)`, `funit.Int16(w)`,
+`|width − w| ≥ 0.5`) restricted to integral widths is the integral model the `C12_*_def` theorems
+are about. -/
+theorem C12_cff_fractional_extends (ws : List Int) :
+    isFixedPitchQ (ws.map (Int.cast : Int → Rat)) = isFixedPitchModel ws ∧
+    avgWidthQ (ws.map (Int.cast : Int → Rat)) = avgWidthModel ws ∧
+    ∀ w : Int, truncQ (w : Rat) = w :=
+  ⟨isFixedPitchQ_int ws, avgWidthQ_int ws, truncQ_int⟩
+
+/-- `IsFixedPitch` (as the code defines it) is what ends up in post.isFixedPitch and is read back:
+`makePost` passes `f.IsFixedPitch()` to `post.Encode`. -/
+theorem C12_fixedpitch_written (ws : List Int) (a u t : Int)
+    (ha : -2147483648 ≤ a ∧ a ≤ 2147483647) (hu : I16 u) (ht : I16 t) :
+    ∃ v p, decodePost (encodePost 0x00030000 ⟨a, u, t, isFixedPitchModel ws⟩) = .ok (v, p) ∧
+      p.isFixedPitch = Spec.isFixedPitch ws :=
+  ⟨_, _, post_roundtrip 0x00030000 ⟨a, u, t, isFixedPitchModel ws⟩ (Or.inr (Or.inl rfl)) ha hu ht,
+    fixedpitch_def ws⟩
+
 /-! ## caret slope (floats): what is and is not proved -/
 
-/-- FULL statement (not proved): for every slope pair `(rise, run)` of int16 values the exact-
-arithmetic `fromAngle (toAngle rise run)` returns the pair reduced to lowest terms with the same
-direction (`(±1, 0)` for a vertical caret). -/
-def C12_caret_full : Prop :=
-  ∀ rise run : Int, I16 rise → I16 run → Caret.isTie rise run = false →
-    let d := Caret.toDir rise run
-    let g : Int := Int.gcd d.1 d.2
-    Caret.norm rise run = if d.2 = 0 then (if d.1 ≥ 0 then 1 else -1, 0) else (d.1 / g, d.2 / g)
+/-- **The hhea caret slope survives Decode∘Encode** (exact arithmetic; the float evaluation of the
+same expressions is trusted and V-streamed).  For every slope `p/q` in lowest terms
+(`Int.gcd p q = 1`, which makes the vertical carets `(±1, 0)` and the horizontal one `(0, 1)`) and
+every multiplier `k ≥ 1` with `|k·p|, |k·q| ≤ 32767`, `fromAngle (toAngle (k·p) (k·q))` — i.e.
+`bestRationalApproximation` searching denominators `1, 2, …` up to its bound, plus the sign and
+vertical conventions of `fromAngle` — is exactly `(p, q)`.  With `k = 1`: a pair in lowest terms is
+returned unchanged; with `k > 1`: a reducible pair is reduced, direction kept.  Excluded: the tie
+`p = 0 ∧ q < 0`, where the sign of a float `-0` decides in Go. -/
+theorem C12_caret_full (p q : Int) (k : Nat) (hk : 0 < k) (hc : Int.gcd p q = 1)
+    (hp : ((k : Int) * p).natAbs ≤ 32767) (hq : ((k : Int) * q).natAbs ≤ 32767)
+    (htie : ¬ (p = 0 ∧ q < 0)) : Caret.norm ((k : Int) * p) ((k : Int) * q) = (p, q) :=
+  Caret.norm_reduces p q k hk hc hp hq htie
 
-/-- PROVED part: the special directions — vertical carets of either sign, the upright default
-`(1, 0)`, the all-zero pair and horizontal `(0, run > 0)` — are fixed points / normalised as
-stated.  The general loop invariant of `bestRationalApproximation` (first denominator with
-distance 0 wins) is checked by correspondence only (stream metrics.caret). -/
+/-- …and the value `-32768` (which has no negative) is treated as `-32767`, as `toAngle` does. -/
+theorem C12_caret_clamp (rise run : Int) :
+    Caret.norm (-32768) run = Caret.norm (-32767) run ∧
+    Caret.norm rise (-32768) = Caret.norm rise (-32767) :=
+  Caret.norm_clamp rise run
+
+/-- the unsigned core: `bestRationalApproximation(p·g / q·g, 32767) = (p, q)` for coprime `p, q` -/
+theorem C12_bestRat_lowest_terms (p q g : Nat) (hg : 0 < g) (hq : 0 < q) (hc : Nat.Coprime q p)
+    (ha : p * g ≤ 32767) (hb : q * g ≤ 32767) : Caret.bestRat (p * g) (q * g) = (p, q) :=
+  Caret.bestRat_reduces p q g hg hq hc ha hb
+
+/-- special directions (kept from round 1; now also instances of `C12_caret_full`, except the
+all-zero pair, which `toAngle` maps to the horizontal caret) -/
 theorem C12_caret_partial :
     Caret.norm 1 0 = (1, 0) ∧ Caret.norm (-1) 0 = (-1, 0) ∧ Caret.norm 0 0 = (0, 1) ∧
     (∀ rise : Int, 0 < rise → rise ≤ 32767 → Caret.norm rise 0 = (1, 0)) ∧
@@ -252,6 +327,14 @@ example : ∀ g ∈ ([⟨500, 10, ⟨10, 0, 400, 700⟩⟩, ⟨600, 0, ⟨0, 0, 
     (g.box.isZero = false ∨ false = false) → g.lsb = g.box.llx := by decide
 example : ∃ hb m, encode (infoOf [⟨2000, -32000, ⟨-32000, 0, -31000, 10⟩⟩, ⟨500, 0, ⟨0, 0, 400, 10⟩⟩]
     false 0 0 0 0) 1 0 = .ok (hb, some m) ∧ (hheaDerived hb).2.2.1 = 100 := ⟨_, _, rfl, by decide⟩
+example : Caret.norm 2048 (-364) = (512, -91) := by
+  have := C12_caret_full 512 (-91) 4 (by decide) (by decide +kernel) (by omega) (by omega) (by omega)
+  simpa using this
+example : Caret.norm 32767 10 = (32767, 10) := by
+  have := C12_caret_full 32767 10 1 (by decide) (by decide +kernel) (by omega) (by omega) (by omega)
+  simpa using this
+example : fontBBoxPDF (Mat.scale (1 / 2048)) [some (corners ⟨10, -20, 500, 700⟩), none] =
+    ⟨10000 / 2048, -20000 / 2048, 500000 / 2048, 700000 / 2048⟩ := by decide +kernel
 example : Os2Dom os2Sample := by
   constructor <;> (first | decide | (unfold I16; decide) | (intro x hx; revert x hx; decide))
 example : isFixedPitchModel [600, 0, 600, 600] = true ∧ isFixedPitchModel [600, 601] = false := by decide
